@@ -141,20 +141,21 @@ type Stall struct {
 }
 
 type Config struct {
-	Seed      uint64  `json:"seed"`
-	Policy    int     `json:"policy"`
-	StickyPct int     `json:"sticky_pct,omitempty"`
-	PCTDepth  int     `json:"pct_depth,omitempty"`
-	PCTLen    int     `json:"pct_len,omitempty"`
-	Stalls    []Stall `json:"stalls,omitempty"`
-	FreezeAt  int     `json:"freeze_at"` // -1: never; the probe then starts when all workers are done
-	Probe     int     `json:"probe"`     // thread id of the probe, -1: none
-	TickPct   int     `json:"tick_pct,omitempty"`
-	SpinBurn  int     `json:"spin_burn,omitempty"` // a spinner may retry this many times without any progress by others
-	MaxSteps  int     `json:"max_steps"`
-	Script    []int16 `json:"-"`
-	Strict    bool    `json:"-"`
-	KeepLog   bool    `json:"-"`
+	Seed         uint64  `json:"seed"`
+	Policy       int     `json:"policy"`
+	StickyPct    int     `json:"sticky_pct,omitempty"`
+	PCTDepth     int     `json:"pct_depth,omitempty"`
+	PCTLen       int     `json:"pct_len,omitempty"`
+	Stalls       []Stall `json:"stalls,omitempty"`
+	FreezeAt     int     `json:"freeze_at"` // -1: never; the probe then starts when all workers are done
+	Probe        int     `json:"probe"`     // thread id of the probe, -1: none
+	TickPct      int     `json:"tick_pct,omitempty"`
+	ClockJumpPct int     `json:"clock_jump_pct,omitempty"` // chance that a clock read finds the clock moved on by milliseconds to seconds (the process was descheduled, the clock was stepped)
+	SpinBurn     int     `json:"spin_burn,omitempty"`      // a spinner may retry this many times without any progress by others
+	MaxSteps     int     `json:"max_steps"`
+	Script       []int16 `json:"-"`
+	Strict       bool    `json:"-"`
+	KeepLog      bool    `json:"-"`
 }
 
 // How a run ended.
@@ -192,6 +193,7 @@ type Result struct {
 	Ticks         int
 	FairRounds    int
 	Burns         int
+	ClockJumps    int // clock reads that found the clock moved on
 	ForcedUnlocks int // locks released on behalf of threads that ended holding them
 	BoundedRounds int // retry rounds granted to self-terminating calls after the others gave up
 	Froze         bool
@@ -221,6 +223,7 @@ type Sim struct {
 	prio      [MaxThreads]int
 	pctAt     []int
 	burner    int
+	nowReads  uint64
 	stallFrom []int
 }
 
@@ -645,6 +648,26 @@ func OpEnd() uint64 {
 		s.open--
 	}
 	return s.seq
+}
+
+// ClockRead is a clock read of a simulated thread: a scheduling point, after which the clock may
+// be found to have jumped (a decision derived from the run seed and the number of the read, so
+// that a replay sees the same jumps).
+//
+//go:norace
+func ClockRead() int64 {
+	Yield(KLoad, nil)
+	s := &S
+	if s.active && !s.kill && s.cfg.ClockJumpPct > 0 {
+		s.nowReads++
+		h := poolMix(s.cfg.Seed^0xc10c, s.nowReads)
+		if int(h%100) < s.cfg.ClockJumpPct {
+			j := []int64{1e6, 1e7, 1e8, 1e9, 3e9, 15e8}[(h>>8)%6]
+			s.advance(s.clock + j)
+			s.res.ClockJumps++
+		}
+	}
+	return s.clock
 }
 
 // Now returns the simulated clock in nanoseconds.
